@@ -564,11 +564,16 @@ def model_runs(ctx):
         runs.append(stmt("c14_call_nested", {"Task": "{t1, t2, t3}", "MaxOps": "2", "MaxEnv": "1",
                                              "Ops": '{"call", "sleep", "cancel"}'}, None, workers=5))
 
+        # round 4: two tasks, done-callbacks that change callback tables (their own task's or the other's) x cancel
+        # (measured single-worker: 644 985 distinct / 1 567 919 generated, 439 s; witnesses 17-20 visited)
+        runs.append(stmt("c14_cbtab_two_tasks", {"Task": "{t1, t2}", "Fn": "{g1, g2}", "MaxOps": "3", "MaxEnv": "1",
+                                                 "Ops": '{"sleep", "addcb", "cancel", "cbtab"}'}, None, workers=5))
+
         def sim():
             c = dict(one)
             c.update({"Task": "{t1, t2, t3, t4}", "Fn": "{g1, g2}", "MaxArg": "2", "MaxOps": "4", "MaxEnv": "2",
                       "Kinds": '{"trig", "svc"}',
-                      "Ops": '{"unique", "sleep", "raise", "create", "cancel", "addcb", "rmcb", "wait", "exec", "call"}'})
+                      "Ops": '{"unique", "sleep", "raise", "create", "cancel", "addcb", "rmcb", "wait", "exec", "call", "cbtab"}'})
             cfg = tl.mc_cfg(ctx, "c14_sim", c, inv, symmetry=False)
             res = tlc.run("Tasks", cfg, ctx.scratch, workers=tl.tlc_workers(4), timeout=3000,
                           extra=["-simulate", "num=3000", "-depth", "70", "-seed", str(ctx.seed + 1)])
